@@ -33,8 +33,8 @@ def itemOfJson (j : Json) : Except String Item := do
   let k ← j.getObjValAs? String "k"
   let n := (j.getObjValAs? Nat "n").toOption.getD 0
   match k with
-  | "postStartTask" => pure (.postStartTask n)
-  | "rpcStartTask" => pure (.rpcStartTask n)
+  | "postStartTask" => pure (.postStartTask n ((j.getObjValAs? Bool "first").toOption.getD true))
+  | "rpcStartTask" => pure (.rpcStartTask n ((j.getObjValAs? Bool "first").toOption.getD true))
   | "postRunAction" => pure (.postRunAction n)
   | "runAction" => pure (.runAction n)
   | "rpcResult" => pure (.rpcResult n (← j.getObjValAs? Bool "ok"))
@@ -44,11 +44,12 @@ def itemOfJson (j : Json) : Except String Item := do
   | "postSendResult" => pure (.postSendResult n)
   | "rpcChildResult" => pure (.rpcChildResult n)
   | "jobChildComplete" => pure (.jobChildComplete n)
+  | "jobChildUpdate" => pure (.jobChildUpdate n)
   | _ => throw s!"bad item {k}"
 
 def itemStr : Item → String
-  | .postStartTask t => s!"postStartTask:{t}"
-  | .rpcStartTask t => s!"rpcStartTask:{t}"
+  | .postStartTask t f => s!"postStartTask:{t}:{f}"
+  | .rpcStartTask t f => s!"rpcStartTask:{t}:{f}"
   | .postRunAction t => s!"postRunAction:{t}"
   | .runAction t => s!"runAction:{t}"
   | .rpcResult t ok => s!"rpcResult:{t}:{ok}"
@@ -58,6 +59,7 @@ def itemStr : Item → String
   | .postSendResult x => s!"postSendResult:{x}"
   | .rpcChildResult x => s!"rpcChildResult:{x}"
   | .jobChildComplete x => s!"jobChildComplete:{x}"
+  | .jobChildUpdate x => s!"jobChildUpdate:{x}"
 
 def eventOfJson (j : Json) : Except String Event := do
   let k ← j.getObjValAs? String "ev"
@@ -67,8 +69,11 @@ def eventOfJson (j : Json) : Except String Event := do
     match St.ofString? (← j.getObjValAs? String "state") with
     | some s => pure (.stop (← j.getObjValAs? Nat "wf") s (← j.getObjValAs? String "msg"))
     | none => throw "bad state"
+  | "pause" => pure (.pause (← j.getObjValAs? Nat "wf"))
+  | "resume" => pure (.resume (← j.getObjValAs? Nat "wf"))
   | "execute" => pure (.execute (← j.getObjValAs? Nat "t") (← j.getObjValAs? Bool "ok"))
   | "deliver" => do pure (.deliver (← itemOfJson (← j.getObjVal? "item")))
+  | "lose" => do pure (.lose (← itemOfJson (← j.getObjVal? "item")))
   | _ => throw s!"bad event {k}"
 
 def infoStr : Info → String
@@ -86,8 +91,10 @@ def optNatJ : Option Nat → Json
   | none => Json.null
 
 /-- does the entry point raise (the transaction is rolled back)? -/
-def raises (w : World) : Event → Bool
-  | .stop a s msg => s != .CANCELLED && (stopOne w a s msg).isNone
+def raises (c : Cfg) (w : World) : Event → Bool
+  | .stop a s msg => s != .CANCELLED && (stopOne w a s (.op msg)).isNone
+  | .pause a => (prop c (fuelOf w) .pause w a).2
+  | .resume a => (prop c (fuelOf w) .resume w a).2
   | _ => false
 
 def obs (w : World) (raised : Bool) : Json :=
@@ -95,7 +102,7 @@ def obs (w : World) (raised : Bool) : Json :=
     ("raised", Json.bool raised),
     ("execs", Json.arr (w.execs.map fun e => Json.arr #[toJson e.defn, optNatJ e.parent, toJson e.index,
         Json.str e.state.toString, Json.str (infoStr e.info), Json.str (outStr e.out), Json.bool e.accepted,
-        toJson e.sent, toJson e.got]).toArray),
+        toJson e.sent, toJson e.got, toJson e.backlog.length]).toArray),
     ("tasks", Json.arr (w.tasks.map fun t => Json.arr #[toJson t.wf, Json.str t.name, Json.str t.state.toString,
         Json.bool t.processed, Json.bool t.hasNext, Json.bool t.errorHandled,
         (match t.wi with
@@ -112,7 +119,7 @@ def handle (fn : String) (a : Json) : Option (Except String Json) :=
       let evs ← evsJ.toList.mapM eventOfJson
       let (_, out) := evs.foldl (fun (p : World × Array Json) e =>
         let w' := step c p.1 e
-        (w', p.2.push (obs w' (raises p.1 e)))) (init, #[])
+        (w', p.2.push (obs w' (raises c p.1 e)))) (init, #[])
       pure (Json.arr out)
   | _ => none
 
